@@ -93,6 +93,8 @@ def _reified_shape_trees(c, n, model):
 
 def _start(c, jn):
     r = c.rng.random()
+    if r < 0.03:
+        return {'implicit': True}     # built from triples alone, no top given, an edge of the top first
     if r < 0.35:
         return None
     if r < 0.38:
@@ -158,6 +160,8 @@ def check_C11(c):
     for model in ('amr', 'miniamr', 'default'):
         for jn in _trees(c, _q(c, 900, 20000), model):
             st = None if c.rng.random() < 0.7 else {'strip': True}
+            if len(jobs) % 14 == 6:
+                st = {'implicit': True}      # built from triples alone, no top given, an edge of the top first
             jobs.append(('tr_inverse', dict(node=jn, model=model, start=st)))
             jobs.append(('tr_dereify', dict(node=jn, model=model, start=st)))
     for mdl in CUSTOM:
